@@ -94,10 +94,12 @@ Record scope := { sc_vars : list var; sc_ret : bool; sc_retval : bool; sc_loop :
    (* scope.vars (newest first); returnType != nil; returnType != NONE_TYPE; block is a WhileStmt / ForStmt *)
 Record finfo := { fi_nil : bool;                 (* isNiladic *)
                   fi_ret : bool;                 (* ReturnType != NONE_TYPE *)
+                  fi_arity : option nat;         (* len(Params), None when VariadicParam != nil *)
                   fi_params : list (str * nat) }. (* Params / VariadicParam: name and declaration token *)
 
 (* Builtins, and the typing oracle *)
 Record benv := { b_funcs : list (str * bool);          (* builtins.Funcs: name, isNiladic *)
+                 b_arity : list (str * option nat);    (* builtins.Funcs: number of parameters, None = variadic *)
                  b_globals : list str;                 (* builtins.Globals *)
                  b_events : list (str * list ty);      (* builtins.EventHandlers: parameter types *)
                  b_tyerr : tsite -> tree -> nat -> bool }.   (* site, tree, blamed token *)
@@ -235,6 +237,7 @@ Variable B : benv.
 Definition env_of (s : pst) : env :=
   {| e_funcs := map (fun nf => (fst nf, fi_nil (snd nf))) (fns s);
      e_vars := visible (scs s);
+     e_arity := map (fun nf => (fst nf, fi_arity (snd nf))) (fns s);
      e_tyerr := b_tyerr B;
      e_fix_slice := true |}.
 
@@ -568,7 +571,7 @@ Definition parse_func (fuel : nat) (s : pst) : PR (option stmt) :=
   let s2 := apnl s1 in
   let fi := match (if is_ident then lookup_fn name (fns s2) else None) with
             | Some fi => fi
-            | None => {| fi_nil := true; fi_ret := false; fi_params := [] |}   (* placeholder *)
+            | None => {| fi_nil := true; fi_ret := false; fi_arity := Some 0; fi_params := [] |}   (* placeholder *)
             end in
   let s3 := add_params (fi_params fi) (push_scope true (fi_ret fi) false s2) in
   pdo (b, s4) <- parse_block fuel s3;
@@ -680,13 +683,15 @@ Definition parse_func_def_signature (s : pst) : PR (option (str * finfo)) :=
                     | _ => Ok false s3
                     end);
   pdo (params, s5) <- sig_params_loop (S (pos s4)) [] s4;
+  let variadic := match ct s5 with T_DOT3 => Nat.eqb (List.length params) 1 | _ => false end in
   let s6 := match ct s5 with
             | T_DOT3 =>
                 let s' := adv s5 in
                 if Nat.eqb (List.length params) 1 then s' else serr K_variadic_with_others s'
             | _ => s5
             end in
-  Ok (Some (name, {| fi_nil := match params with [] => true | _ => false end; fi_ret := ret; fi_params := params |}))
+  Ok (Some (name, {| fi_nil := match params with [] => true | _ => false end; fi_ret := ret;
+                     fi_arity := if variadic then None else Some (List.length params); fi_params := params |}))
      (apnl (assert_eol s6)).
 
 (* advanceTo(i) *)
@@ -704,7 +709,7 @@ Definition signature_step (pv : token) (toks : list token) (s : pst) : PR unit :
   | None => Ok tt s1
   | Some (name, fi) =>
     let s2 := if mem_str name (b_globals B) then serr_at K_override_builtin_var ftok s1 else s1 in
-    let s3 := match lookup_fn name (map (fun nb => (fst nb, {| fi_nil := snd nb; fi_ret := false; fi_params := [] |})) (b_funcs B)) with
+    let s3 := match lookup_fn name (map (fun nb => (fst nb, {| fi_nil := snd nb; fi_ret := false; fi_arity := None; fi_params := [] |})) (b_funcs B)) with
               | Some _ => serr_at K_override_builtin_func ftok s2
               | None => if is_func name s2 then serr_at K_redecl_func ftok s2 else s2
               end in
@@ -747,10 +752,13 @@ Definition parse (B : benv) (raw : list (token * position)) (eof : position) : o
   let good := filter (fun tp => negb (is_illegal (fst tp))) raw in
   let toks := map fst good in
   let poss := map snd good in
-  let loc := fun e : perr * nat => locate poss eof (snd e) in
+  (* the token blamed for a wrong argument count (arg.Token()) is not mirrored: reported as (0, 0) *)
+  let loc := fun e : perr * nat => match fst e with E_arity => (0, 0) | _ => locate poss eof (snd e) end in
   let s0 := {| cs := state_at tEOF toks [];
                scs := [];
-               fns := map (fun nb => (fst nb, {| fi_nil := snd nb; fi_ret := true; fi_params := [] |})) (b_funcs B);
+               fns := map (fun nb => (fst nb, {| fi_nil := snd nb; fi_ret := true;
+                                                fi_arity := match lookup_arity (fst nb) (b_arity B) with Some a => a | None => None end;
+                                                fi_params := [] |})) (b_funcs B);
                bodies := []; hds := [] |} in
   match signatures B tEOF toks s0 with
   | Crash w => CrashOut w
@@ -810,6 +818,13 @@ Definition decode_event (x : sx) : option (str * list ty) :=
 
 Definition pos_sx (p : position) : sx := Lst [sx_nat (fst p); sx_nat (snd p)].
 
+Definition decode_func_ar (x : sx) : option (str * bool * option nat) :=
+  match x with
+  | Lst [Str n; b; Int a] => Some (n, sym_is b "true", Some (Z.to_nat a))
+  | Lst [Str n; b; Sym _] => Some (n, sym_is b "true", None)
+  | _ => None
+  end.
+
 Definition tsite_name (s : tsite) : string :=
   match s with
   | TS_unary => "unary" | TS_binary => "binary" | TS_not_indexable => "not_indexable" | TS_index_type => "index_type"
@@ -826,20 +841,21 @@ Definition decode_tyerr (x : sx) : option (str * nat) :=
   | _ => None
   end.
 
-(* case: (((fname niladic) ...) (global ...) ((event (ty ...)) ...) ((TYPE "lit" line col) ...) (eofline eofcol)
+(* case: (((fname niladic nparams|variadic) ...) (global ...) ((event (ty ...)) ...) ((TYPE "lit" line col) ...) (eofline eofcol)
           ((site blamed-token) ...))
    The last component is the typing oracle: the typing errors the real type checker reported, each as
    its site and the token it blames (tokens left); the oracle objects exactly there.
-   answer: (accept) | (reject (line col) ...) | (crash) | (oof) *)
+   answer: (accept) | (reject (line col) ...) | (crash) | (oof); a wrong argument count is reported as (0 0) *)
 Definition parser_case (x : sx) : sx :=
   match x with
   | Lst [Lst fs; Lst gs; Lst evs; Lst ts; Lst [Int el; Int ec]; Lst tes] =>
-    match decode_list decode_func fs, decode_list decode_str gs, decode_list decode_event evs,
+    match decode_list decode_func_ar fs, decode_list decode_str gs, decode_list decode_event evs,
           decode_list decode_pos_token ts, decode_list decode_tyerr tes with
     | Some funcs, Some globals, Some events, Some raw, Some tyerrs =>
       let oracle := fun (site : tsite) (_ : tree) (n : nat) =>
         existsb (fun e => str_eqb (fst e) (s_ (tsite_name site)) && Nat.eqb (snd e) n) tyerrs in
-      let B := {| b_funcs := funcs; b_globals := globals; b_events := events; b_tyerr := oracle |} in
+      let B := {| b_funcs := map (fun x => (fst (fst x), snd (fst x))) funcs; b_arity := map (fun x => (fst (fst x), snd x)) funcs;
+                  b_globals := globals; b_events := events; b_tyerr := oracle |} in
       match parse B raw (Z.to_nat el, Z.to_nat ec) with
       | Accept _ => Lst [Sym (s_ "accept")]
       | Reject es => Lst (Sym (s_ "reject") :: map pos_sx es)
